@@ -24,6 +24,8 @@ EXPLANATION = (
     "never to closures (deepcopy copies functions by reference).  compute()'s freshness is covered by C04.  Does not decide equality "
     "with an independent per-cell run nor which cell a border value belongs to.")
 RULES = {
+    "C11-g": "CELLS UNTOUCHED: the context MapBins nests under context.value (the argument that update_nested modifies) is a deep copy, "
+             "never the context object of a produced cell -- with drop_bins_context=False that object stays in the yielded histogram",
     "C11-f": "NARROW TRY: the IndexError handler that means 'outside the edges' encloses only the lookup of the cell, no call",
     "C11-a": "FRESH: one private deep copy of the analysis per cell (construction and MapBins)",
     "C11-b": "GUARD: cells are reached by get_bin_on_value indices, negative/overflow indices are ignored",
@@ -435,7 +437,42 @@ def check_overflow_handler_narrow(ctx):
     ctx.instances_floor("C11-f", n, 1, "swallowing lookup handlers in SplitIntoBins.fill")
 
 
+def check_mapbins_value_context(ctx):
+    """C11-g.  update_nested(key, d, other) modifies *other* (documented) and makes it part of d.  MapBins.run may keep the
+    (data, context) cells it has produced inside the new histogram (drop_bins_context=False): the example cell's context
+    handed to update_nested uncopied would be changed in place (the old context.value is written into it) and shared with the
+    yielded context, so cell [0]..[0] would no longer be the sequence applied to that cell."""
+    fn = ctx.tree.func("lena.structures.split_into_bins", "MapBins.run")
+    calls = [c for c in A.walk_local(fn) if isinstance(c, ast.Call) and len(c.args) == 3 and (
+                 (ctx.res.call_canon(c) or "").endswith("update_nested") or A.call_name(c) == "update_nested" or (
+                     isinstance(c.func, ast.Name) and A.single_def(fn, c.func.id) is not None
+                     and A.src(A.single_def(fn, c.func.id)).endswith("update_nested")))]
+    if not ctx.require(calls, "C11-g", fn, "MapBins.run: no update_nested(key, d, other) call found"):
+        return
+    for c in calls:
+        other = c.args[2]
+        v = other
+        if isinstance(v, ast.Name):
+            d = A.single_def(fn, v.id)
+            if d is None:
+                ctx.unknown("C11-g", c, "MapBins.run: `%s` passed to update_nested has several definitions" % v.id)
+                continue
+            v = d
+        canon = ctx.res.call_canon(v) if isinstance(v, ast.Call) else None
+        if canon == "copy.deepcopy" or isinstance(v, ast.Dict):
+            ctx.ok("C11-g", c, "MapBins.run nests a deep copy (`%s`)" % A.short(v, 50))
+        elif isinstance(v, (ast.Call, ast.Subscript, ast.Attribute, ast.Name)) and canon not in ("builtins.dict",):
+            ctx.violation("C11-g", c, "MapBins.run hands `%s` = `%s` to update_nested as the dictionary to be modified: it is not a private "
+                          "copy but the context object of a produced cell; with drop_bins_context=False that cell stays in the yielded "
+                          "histogram, gets the previous context.value written into it and is shared with the yielded context, so the cell "
+                          "is no longer what the sequence produced for it" % (A.src(other), A.short(v, 60)),
+                          construct="mapbins-value-context-alias")
+        else:
+            ctx.unknown("C11-g", c, "MapBins.run: cannot tell whether `%s` is a private copy" % A.short(v, 50))
+
+
 def check(ctx):
+    check_mapbins_value_context(ctx)
     check_overflow_handler_narrow(ctx)
     check_deepcopy_safe(ctx)
     check_fresh(ctx)
@@ -446,6 +483,7 @@ def check(ctx):
 
 
 VARIANTS = [
+    M("mapbins-example-context-uncopied", "lena/structures/split_into_bins.py", "                bin_context = copy.deepcopy(\n                    lena.flow.get_context(get_example_bin(new_bins))\n                )", "                bin_context = lena.flow.get_context(get_example_bin(new_bins))", ["C11-g"]),
     M("overflow-try-around-fill", "lena/structures/split_into_bins.py", "            try:\n                subarr = subarr[ind]\n", "            try:\n                subarr = subarr[ind]\n                getattr(subarr, 'fill', len)(val) if False else None\n", ["C11-f"]),
     M("fill-chain-lambda", "lena/core/fill_seq.py", "        self._fill_into_el = fill_into_el\n        self._fill_el = fill_el\n", "        self._fill_into_el = fill_into_el\n        self._fill_el = fill_el\n        fill_into = fill_into_el.fill_into\n        self.fill = lambda value: fill_into(fill_el, value)\n", ["C11-e"]),
     M("iteratebins-shared-hist-context", "lena/structures/split_into_bins.py", "update_nested(\"bins\", bin_context, copy.deepcopy(hist_context))", "update_nested(\"bins\", bin_context, hist_context)", ["C11-a"]),
